@@ -1,5 +1,6 @@
 import QV.Wire
 import QV.Shared.SchedWire
+import QV.Shared.HandlerWire
 import QV.C25.Spec
 /-! Driver side of the C25 correspondence check. -/
 namespace QV.C25
@@ -68,9 +69,9 @@ def durTag : DurDesc → String
   | .zero => "dur-zero"
   | .unknown => "dur-none"
 
-def handleCase (stream : String) (bS dursS lensS out : Sexp) : CaseResult :=
-  match decBlock bS, (match dursS with | .list xs => xs.mapM decDur | _ => none), decNats lensS with
-  | some b, some durs, some lens =>
+/-- the comparison and the specification checks, on decoded inputs -/
+def handleDecoded (stream : String) (b : Block) (durs : List DurDesc) (lens : List Nat) (out : Sexp)
+    (extraOk : Bool) (extraTags : List String) : CaseResult :=
     let L := b.instrs.length
     let dur : Nat → Option Int := fun i => (durs[i]?).bind instructionDuration
     -- model
@@ -96,20 +97,47 @@ def handleCase (stream : String) (bS dursS lensS out : Sexp) : CaseResult :=
             | some (bitems, bD) => (s1 && hullB lens items bitems bD, true, true)
       | _ => (false, false, false)
     let expanded := lens.any (· != 1)
-    { agree := mOut == out, specOk, nontrivial := okFlat && L ≥ 2,
+    { agree := mOut == out && extraOk, specOk, nontrivial := okFlat && L ≥ 2,
       tags := [stream, s!"len{min L 8}"] ++ (durs.map durTag).eraseDups ++
         (if okFlat then ["scheduled"] else ["no-schedule"]) ++ (if okBlock then ["block-ok"] else []) ++
         (if expanded then ["calibrated"] else []) ++ (if lens.any (· ≥ 3) then ["expansion3+"] else []) ++
         (if b.instrs.any (fun i => (frameAccesses i).any (·.2 == .read)) then ["blocking"] else []) ++
-        (if b.term.isSome then ["term"] else []),
-      detail := s!"model={mOut} impl={out}" }
+        (if b.term.isSome then ["term"] else []) ++ extraTags,
+      detail := s!"extraOk={extraOk} model={mOut} impl={out}" }
+
+def handleCase (stream : String) (bS dursS lensS out : Sexp) : CaseResult :=
+  match decBlock bS, (match dursS with | .list xs => xs.mapM decDur | _ => none), decNats lensS with
+  | some b, some durs, some lens => handleDecoded stream b durs lens out true []
   | _, _, _ => .bad s!"undecodable case"
+
+def intLe (a b : Int) : Bool := a ≤ b
+
+def normDur : DurDesc → DurDesc
+  | .waveform n d pl pr rates => .waveform n d pl pr (rates.map fun r => r.mergeSort intLe)
+  | d => d
+
+/-- "ast" twin: the program and the expanded block arrive as full ASTs; handler answers and duration
+ingredients are computed here (`HandlerFromAst`), the harness' own `durs` projection is only cross-checked -/
+def handleAstCase (progS sigsS flatS termS lensS dursS out : Sexp) : CaseResult :=
+  match HandlerWire.decProgram progS sigsS, AstWire.decodeInstructionList flatS,
+        (match termS with | .atom "none" => some none | s => (AstWire.decodeInstruction s).map some),
+        decNats lensS, (match dursS with | .list xs => xs.mapM decDur | _ => none) with
+  | some p, some flat, some term, some lens, some hdurs =>
+    match HandlerFromAst.optAll (flat.map (HandlerFromAst.durDescOf p)) with
+    | none =>
+      { agree := true, specOk := true, nontrivial := false, tags := ["ast", "inexact-time"] }
+    | some durs =>
+      let b := HandlerFromAst.expandedBlock p flat term
+      let dursOk := durs.map normDur == hdurs.map normDur
+      handleDecoded "ast" b durs lens out dursOk (if dursOk then [] else ["durs-differ"])
+  | _, _, _, _, _ => .bad "undecodable ast case"
 
 def handle (inp out : Sexp) : CaseResult :=
   match inp with
   | .list [.atom "corpus", b, d, l] => handleCase "corpus" b d l out
   | .list [.atom "enum", b, d, l] => handleCase "enum" b d l out
   | .list [.atom "random", b, d, l] => handleCase "random" b d l out
+  | .list [.atom "ast", prog, sigs, flat, term, lens, durs] => handleAstCase prog sigs flat term lens durs out
   | _ => .bad s!"undecodable input {inp}"
 
 end QV.C25
